@@ -330,3 +330,7 @@ M("c20.bare-define-empty", "C20", UD, "        name = text\n        value = \"tr
 M("c20.junit-does-not-force-capture", "C20", CFG, "            self.stdout_capture = True\n            self.stderr_capture = True\n            self.log_capture = True\n            self.reporters.append(JUnitReporter(self))", "            self.reporters.append(JUnitReporter(self))")
 M("c20.behaverc-before-behave-ini", "C20", CFG, '            "behave.ini", ".behaverc", "setup.cfg", "tox.ini", "pyproject.toml"', '            ".behaverc", "behave.ini", "setup.cfg", "tox.ini", "pyproject.toml"')
 M("c20.toml-tags-not-renamed", "C20", CFG, "            this_config[param_name] = raw_value\n        elif action not in CONFIGFILE_EXCLUDED_ACTIONS:\n            raise ValueError", "            this_config[dest] = raw_value\n        elif action not in CONFIGFILE_EXCLUDED_ACTIONS:\n            raise ValueError")
+
+M("c19.version-object-string-not-converted", "C19", "behave/active_tag/python.py", "    def __init__(self, value, compare_func=None):\n        if isinstance(value, six.string_types):\n            value = self.to_version_tuple(value)",
+  "    def __int__(self, value, compare_func=None):\n        if isinstance(value, six.string_types):\n            value = self.to_version_tuple(value)")
+M("c19.version-tuple-two-parts-only", "C19", "behave/active_tag/python.py", 'return tuple([int(x) for x in version.split(".")])', 'return tuple([int(x) for x in version.split(".")[:2]])')
